@@ -9,7 +9,7 @@ From RX Require Import Generated.
 From RX.Model Require Import Base CharClass Stream Tokenizer.
 From RX.Spec Require Cst Chars CstU CstNs CstEnt.
 From RX.Spec Require Import CstFull CstFullS5.
-From RX.Proofs Require Import Tactics CstLex CstULex.
+From RX.Proofs Require Import Tactics CstLex CstULex PubidChar.
 From RX.Proofs Require RejectProofs CharTablesProofs WfParseTok WfParseChars CstFullLex CstFullS5Decl.
 From RX.Proofs Require Import CstSound CstSoundLex CstSoundU CstSoundULex CstSoundT CstSoundTLex CstSoundN CstSoundNLex CstSoundNText CstSoundP CstSoundPEnt.
 Open Scope N_scope.
@@ -781,8 +781,8 @@ Proof.
 Qed.
 
 (* one pseudo-attribute, the name being the keyword itself *)
-Lemma inv_pattr kw p l s' : WV p (kw ++ l) -> CstFullS5Decl.is_kw kw -> name_stop l ->
-  parse_attribute text (st p (kw ++ l)) = Ok s' ->
+Lemma inv_pattr kw p l pfx loc s' : WV p (kw ++ l) -> CstFullS5Decl.is_kw kw -> name_stop l ->
+  parse_attribute text (st p (kw ++ l)) = Ok (pfx, loc, s') ->
   exists w1 w2 q v l', l = w1 ++ [61] ++ w2 ++ [q] ++ utf8s v ++ [q] ++ l' /\
     Cst.wf_ws w1 = true /\ Cst.wf_ws w2 = true /\ (q = 39 \/ q = 34) /\
     forallb (fun x => Chars.xml_Char x && negb (x =? q) && negb (x =? 60)) v = true /\
@@ -803,7 +803,8 @@ Proof.
   ib H u Hu. clear Hu.
   assert (HW4 : WV (p + blen kw + blen w1 + 1 + blen w2 + 1 + blen (utf8s v)) l4).
   { apply (WV_app text _ _ _ HW3). apply Valid_utf8s. eapply walk_scalars; eauto. }
-  destruct (consume_byte_inv text _ _ _ _ (WV_W _ _ _ HW4) H) as (l' & -> & -> & _).
+  ib H s5 H5. destruct (consume_byte_inv text _ _ _ _ (WV_W _ _ _ HW4) H5) as (l' & -> & -> & _).
+  inversion H; subst pfx loc s'. clear H.
   exists w1, w2, q, v, l'. split; [reflexivity|]. split; [exact Hw1|]. split; [exact Hw2|]. split; [exact Hq|].
   split.
   { clear - Hwalk. revert Hwalk. generalize (p + blen kw + blen w1 + 1 + blen w2 + 1). generalize (q :: l').
@@ -832,15 +833,19 @@ Qed.
 Definition mkps (w w1 w2 : bytes) (q : N) (v : scalars) : pseudo :=
   {| p_ws := w; p_ws1 := w1; p_ws2 := w2; p_quote := q; p_value := v |}.
 
-(* a pseudo-attribute preceded by the white space [w] *)
+(* a pseudo-attribute preceded by the white space [w]; (D23) the model now checks that the name is
+   exactly the keyword (parse_pseudo_attribute), so P5 ([Qdecl]) has become redundant; it is still
+   used here for the end of the name *)
 Lemma inv_pseudo kw q0 w l s' : WV q0 (w ++ kw ++ l) -> Cst.wf_ws w = true -> w <> [] -> CstFullS5Decl.is_kw kw ->
-  Qdecl (kw ++ l) -> parse_attribute text (st (q0 + blen w) (kw ++ l)) = Ok s' ->
+  Qdecl (kw ++ l) -> parse_pseudo_attribute text kw (st (q0 + blen w) (kw ++ l)) = Ok s' ->
   exists ps l', w ++ kw ++ l = r_pseudo kw ps ++ l' /\ wf_pseudo ps = true /\ Qdecl l' /\
     s' = st (q0 + blen (r_pseudo kw ps)) l' /\ WV (q0 + blen (r_pseudo kw ps)) l'.
 Proof.
   intros HW Hw Hne Hk HQ H.
   assert (HW1 : WV (q0 + blen w) (kw ++ l)) by (apply (WV_lit text _ _ _ HW); apply ws_lit; exact Hw).
-  destruct (inv_pattr kw _ l s' HW1 Hk (Qdecl_kw kw l Hk HQ) H) as (w1 & w2 & q & v & l' & -> & Hw1 & Hw2 & Hq & Hv & -> & HW').
+  unfold parse_pseudo_attribute in H. cbv zeta in H. ib H r Hr. destruct r as [[pfx loc] s1]. cbv beta iota in H.
+  match type of H with (if ?c then _ else _) = _ => destruct c end; [noerr|]. inversion H; subst s1. clear H. rename Hr into H.
+  destruct (inv_pattr kw _ l pfx loc s' HW1 Hk (Qdecl_kw kw l Hk HQ) H) as (w1 & w2 & q & v & l' & -> & Hw1 & Hw2 & Hq & Hv & -> & HW').
   exists (mkps w w1 w2 q v), l'. unfold r_pseudo, mkps. cbn [p_ws p_ws1 p_ws2 p_quote p_value].
   split; [rewrite <- !app_assoc; reflexivity|]. split.
   { unfold wf_pseudo. cbn [p_ws p_ws1 p_ws2 p_quote p_value]. rewrite (ws_s1 _ Hw Hne), (ws_s _ Hw1), (ws_s _ Hw2), Hv.
@@ -947,24 +952,71 @@ Proof.
   rewrite Eb. split; [reflexivity|exact HW'].
 Qed.
 
-(* ---- quoted literals that are not read ---- *)
-Lemma inv_lit p l q sl0 s1 s2 : WV p l -> q < 128 ->
-  consume_bytes text (fun x => negb (x =? q)) (st p l) = Ok (sl0, s1) -> consume_byte text q s1 = Ok s2 ->
-  exists v l', l = utf8s v ++ [q] ++ l' /\ forallb (fun x => Chars.scalar x && negb (x =? q)) v = true /\
-    s2 = st (p + blen (utf8s v) + 1) l' /\ WV (p + blen (utf8s v) + 1) l'.
+(* ---- the quoted literals of an external identifier (D23: checked by the model) ---- *)
+(* the model's byte class of a PubidLiteral is the PubidChar of the recommendation *)
+Lemma pubid_char_PubidChar x : CharClass.pubid_char x = xml_PubidChar x.
 Proof.
-  intros HW Hq H1 H2. unfold consume_bytes in H1.
-  destruct (skip_bytes_inv text (fun x => negb (x =? q)) p l (WV_W _ _ _ HW)) as (x & l1 & -> & Hx & _ & Esk).
-  rewrite Esk in H1. ib H1 sx Hs. inversion H1; subst sl0 s1. clear H1.
-  assert (HWx : W (p + blen x) l1) by (apply (W_app text _ _ _ (WV_W _ _ _ HW))).
-  destruct (consume_byte_inv text _ _ _ _ HWx H2) as (l' & -> & -> & _).
-  pose proof (valid_split x q l' Hq (proj2 HW)) as Hvx. destruct (Valid_scalars _ Hvx) as (v & Hvs & ->).
-  exists v, l'. split; [reflexivity|]. split.
-  { assert (Nq : Forall (fun c => c <> q) v).
-    { apply (scalars_ne q v Hq). apply Forall_forall. intros y Hy. rewrite forallb_forall in Hx. specialize (Hx y Hy). lia. }
-    apply forallb_forall. intros y Hy. unfold scalars_ok in Hvs. rewrite Forall_forall in Hvs, Nq.
-    change (Chars.scalar y) with (is_scalar y). rewrite (Hvs y Hy). specialize (Nq y Hy). cbn [andb]. lia. }
-  split; [reflexivity|]. apply (WV_cons text _ q). - apply (WV_app text _ _ _ HW Hvx). - exact Hq.
+  unfold CharClass.pubid_char, is_ascii_alphanumeric, is_ascii_digit, CharClass.pubid_punct, xml_PubidChar, pubid_punct.
+  cbn [mem_b existsb]. lia.
+Qed.
+
+(* a system literal: Chars other than the quote (is_xml_str) *)
+Lemma inv_syslit p l s' : WV p l -> parse_external_literal text (st p l) = Ok s' ->
+  exists q v l', l = [q] ++ utf8s v ++ [q] ++ l' /\ wf_syslit q v = true /\
+    s' = st (p + 1 + blen (utf8s v) + 1) l' /\ WV (p + 1 + blen (utf8s v) + 1) l'.
+Proof.
+  intros HW H. unfold parse_external_literal in H.
+  ib H qq Hqq. destruct qq as [q s2].
+  destruct (consume_quote_inv text _ _ _ _ (WV_W _ _ _ HW) Hqq) as (l3 & -> & Hq & -> & _).
+  assert (Hq128 : q < 128) by lia.
+  assert (HW1 : WV (p + 1) l3) by (apply (WV_cons text _ _ _ HW); exact Hq128).
+  cbv zeta in H. ib H cb Hcb. destruct cb as [vsl s3]. unfold consume_bytes in Hcb.
+  destruct (skip_bytes_inv text (fun y => negb (y =? q)) (p + 1) l3 (WV_W _ _ _ HW1)) as (x & l2 & -> & Hx & _ & Esk).
+  rewrite Esk in Hcb. ib Hcb sx Hs. unfold slice_back in Hs. apply mk_slice_sl in Hs. cbn [CstLex.st s_pos] in Hs. subst sx.
+  inversion Hcb; subst vsl s3. clear Hcb.
+  ib H u Hu. apply WfParseTok.is_xml_str_wf in Hu. rewrite (W_slice text _ x _ (WV_W _ _ _ HW1)) in Hu.
+  assert (HWx : W (p + 1 + blen x) l2) by (apply (W_app text _ _ _ (WV_W _ _ _ HW1))).
+  destruct (consume_byte_inv text _ _ _ _ HWx H) as (l' & -> & -> & _).
+  pose proof (valid_split x q l' Hq128 (proj2 HW1)) as Hvx. destruct (Valid_scalars _ Hvx) as (v & Hvs & ->).
+  exists q, v, l'. split; [reflexivity|]. split.
+  { unfold wf_syslit, is_quote. apply andb_true_iff. split; [lia|].
+    pose proof (all_chars_utf8s v Hvs Hu) as Hcc.
+    assert (Hu' : uchars v).
+    { unfold uchars. unfold scalars_ok in Hvs. rewrite Forall_forall in *. intros y Hy. auto. }
+    pose proof (uchars_xml v Hu') as Hxc.
+    assert (Nq : Forall (fun c => c <> q) v).
+    { apply (scalars_ne q v Hq128). apply Forall_forall. intros y Hy. rewrite forallb_forall in Hx. specialize (Hx y Hy). lia. }
+    apply forallb_forall. intros y Hy. rewrite forallb_forall in Hxc. rewrite (Hxc y Hy).
+    rewrite Forall_forall in Nq. specialize (Nq y Hy). cbn [andb]. lia. }
+  split; [reflexivity|]. apply (WV_cons text _ q); [apply (WV_app text _ _ _ HW1 Hvx)|exact Hq128].
+Qed.
+
+(* a public literal: PubidChar bytes other than the quote *)
+Lemma inv_publit p l s' : WV p l -> parse_pubid_literal text (st p l) = Ok s' ->
+  exists q v l', l = [q] ++ utf8s v ++ [q] ++ l' /\ wf_publit q v = true /\
+    s' = st (p + 1 + blen (utf8s v) + 1) l' /\ WV (p + 1 + blen (utf8s v) + 1) l'.
+Proof.
+  intros HW H. unfold parse_pubid_literal in H.
+  ib H qq Hqq. destruct qq as [q s2].
+  destruct (consume_quote_inv text _ _ _ _ (WV_W _ _ _ HW) Hqq) as (l3 & -> & Hq & -> & _).
+  assert (Hq128 : q < 128) by lia.
+  assert (HW1 : WV (p + 1) l3) by (apply (WV_cons text _ _ _ HW); exact Hq128).
+  cbv zeta in H.
+  destruct (skip_bytes_inv text (fun x => negb (x =? q) && pubid_char x) (p + 1) l3 (WV_W _ _ _ HW1)) as (v & l2 & -> & Hv & _ & Esk).
+  rewrite Esk in H.
+  assert (Ha : forallb (fun y => y <? 128) v = true).
+  { revert Hv. apply forallb_imp. intros y Hy. apply andb_true_iff in Hy. apply pubid_char_ltb128. apply Hy. }
+  pose proof (WV_lit text _ _ _ HW1 Ha) as HW2.
+  ib H y Hy. destruct (curr_byte_inv text _ _ _ (WV_W _ _ _ HW2) Hy) as (l' & ->).
+  destruct (negb (y =? q)) eqn:Eyq; [noerr|]. assert (y = q) by lia. subst y.
+  rewrite (advance1_st text) in H by apply HW2. inversion H; subst s'. clear H.
+  assert (Eu : utf8s v = v).
+  { apply utf8s_ascii_id. apply Forall_forall. intros y Hy'. rewrite forallb_forall in Ha. specialize (Ha y Hy'). lia. }
+  exists q, v, l'. rewrite Eu. split; [reflexivity|]. split.
+  { unfold wf_publit, is_quote. apply andb_true_iff. split; [lia|].
+    revert Hv. apply forallb_imp. intros y Hy'. apply andb_true_iff in Hy'. destruct Hy' as [Hn Hp].
+    rewrite <- pubid_char_PubidChar, Hp, Hn. reflexivity. }
+  split; [reflexivity|]. apply (WV_cons text _ q _ HW2). exact Hq128.
 Qed.
 
 Lemma inv_extid p l found s' : WV p l -> parse_external_id text (st p l) = Ok (found, s') ->
@@ -984,17 +1036,13 @@ Proof.
     pose proof (WV_lit text _ kw_system _ HW eq_refl) as HW1. change (blen kw_system) with 6 in HW1.
     ib H idv Hid. unfold slice_back in Hid. apply mk_slice_sl in Hid. cbn [CstLex.st s_pos] in Hid. subst idv.
     ib H s1 H1. destruct (consume_spaces_inv_p text HF _ _ _ HW1 H1) as (w & l2 & -> & Hwne & Hw & _ & -> & HW2).
-    ib H qq Hqq. destruct qq as [q s2].
-    destruct (consume_quote_inv text _ _ _ _ (WV_W _ _ _ HW2) Hqq) as (l3 & -> & Hq & -> & _).
-    assert (Hq128 : q < 128) by lia.
-    assert (HW3 : WV (p + 6 + blen w + 1) l3) by (apply (WV_cons text _ _ _ HW2); exact Hq128).
-    ib H cb Hcb. destruct cb as [sl0 s3]. ib H s4 H4.
-    destruct (inv_lit _ _ _ _ _ _ HW3 Hq128 Hcb H4) as (v & l' & -> & Hv & -> & HW4).
     replace (slice_bytes text (sl p (p + 6))) with kw_system in H.
     2:{ symmetry. change 6 with (blen kw_system). apply (W_slice text p kw_system _ HW0). }
-    change (bytes_eqb kw_system (b "SYSTEM")) with true in H. cbv iota in H. inversion H; subst. split; [reflexivity|].
+    change (bytes_eqb kw_system (b "SYSTEM")) with true in H. cbv iota in H.
+    ib H s4 H4. destruct (inv_syslit _ _ _ HW2 H4) as (q & v & l' & -> & Hv & -> & HW4).
+    inversion H; subst. split; [reflexivity|].
     exists (XSystem w q v), l'. cbn [r_extid wf_extid]. unfold r_lit. split; [rewrite <- !app_assoc; reflexivity|]. split.
-    { unfold wf_lit, is_quote. rewrite (ws_s1 _ Hw Hwne), Hv. cbn [andb]. rewrite andb_true_r. lia. }
+    { rewrite (ws_s1 _ Hw Hwne), Hv. reflexivity. }
     rewrite !blen_app. change (blen kw_system) with 6. change (blen [q]) with 1.
     replace (p + (6 + (blen w + (1 + (blen (utf8s v) + 1))))) with (p + 6 + blen w + 1 + blen (utf8s v) + 1) by lia.
     split; [reflexivity|exact HW4].
@@ -1004,26 +1052,15 @@ Proof.
     pose proof (WV_lit text _ kw_public _ HW eq_refl) as HW1. change (blen kw_public) with 6 in HW1.
     ib H idv Hid. unfold slice_back in Hid. apply mk_slice_sl in Hid. cbn [CstLex.st s_pos] in Hid. subst idv.
     ib H s1 H1. destruct (consume_spaces_inv_p text HF _ _ _ HW1 H1) as (w & l2 & -> & Hwne & Hw & _ & -> & HW2).
-    ib H qq Hqq. destruct qq as [q s2].
-    destruct (consume_quote_inv text _ _ _ _ (WV_W _ _ _ HW2) Hqq) as (l3 & -> & Hq & -> & _).
-    assert (Hq128 : q < 128) by lia.
-    assert (HW3 : WV (p + 6 + blen w + 1) l3) by (apply (WV_cons text _ _ _ HW2); exact Hq128).
-    ib H cb Hcb. destruct cb as [sl0 s3]. ib H s4 H4.
-    destruct (inv_lit _ _ _ _ _ _ HW3 Hq128 Hcb H4) as (v & l4 & -> & Hv & -> & HW4).
     replace (slice_bytes text (sl p (p + 6))) with kw_public in H.
     2:{ symmetry. change 6 with (blen kw_public). apply (W_slice text p kw_public _ HW0). }
     change (bytes_eqb kw_public (b "SYSTEM")) with false in H. cbv iota in H.
+    ib H s4 H4. destruct (inv_publit _ _ _ HW2 H4) as (q & v & l4 & -> & Hv & -> & HW4).
     ib H s5 H5. destruct (consume_spaces_inv_p text HF _ _ _ HW4 H5) as (w' & l5 & -> & Hwne' & Hw' & _ & -> & HW5).
-    ib H qq2 Hqq2. destruct qq2 as [q' s6].
-    destruct (consume_quote_inv text _ _ _ _ (WV_W _ _ _ HW5) Hqq2) as (l6 & -> & Hq' & -> & _).
-    assert (Hq128' : q' < 128) by lia.
-    assert (HW6 : WV (p + 6 + blen w + 1 + blen (utf8s v) + 1 + blen w' + 1) l6) by (apply (WV_cons text _ _ _ HW5); exact Hq128').
-    ib H cb2 Hcb2. destruct cb2 as [sl1 s7]. ib H s8 H8.
-    destruct (inv_lit _ _ _ _ _ _ HW6 Hq128' Hcb2 H8) as (v' & l' & -> & Hv' & -> & HW7).
+    ib H s8 H8. destruct (inv_syslit _ _ _ HW5 H8) as (q' & v' & l' & -> & Hv' & -> & HW7).
     inversion H; subst. split; [reflexivity|].
     exists (XPublic w q v w' q' v'), l'. cbn [r_extid wf_extid]. unfold r_lit. split; [rewrite <- !app_assoc; reflexivity|]. split.
-    { unfold wf_lit, is_quote. rewrite (ws_s1 _ Hw Hwne), (ws_s1 _ Hw' Hwne'), Hv, Hv'. cbn [andb]. rewrite !andb_true_r.
-      apply andb_true_iff. split; lia. }
+    { rewrite (ws_s1 _ Hw Hwne), (ws_s1 _ Hw' Hwne'), Hv, Hv'. reflexivity. }
     rewrite !blen_app. change (blen kw_public) with 6. change (blen [q]) with 1. change (blen [q']) with 1.
     replace (p + (6 + (blen w + (1 + (blen (utf8s v) + 1) + (blen w' + (1 + (blen (utf8s v') + 1)))))))
       with (p + 6 + blen w + 1 + blen (utf8s v) + 1 + blen w' + 1 + blen (utf8s v') + 1) by lia.
@@ -1132,29 +1169,22 @@ Proof.
   destruct is_ge.
   2:{ inversion H; subst. split; [reflexivity|]. left. exists x, None, [], l1. cbn [r_opt app]. rewrite blen_nil, !N.add_0_r.
       split; [reflexivity|]. split; [exact Hwx|]. split; [reflexivity|]. split; [reflexivity|]. split; [reflexivity|]. split; [exact HW1|auto]. }
+  cbv zeta in H.
   destruct (skip_spaces_inv_p text HF _ _ HW1) as (w & l2 & -> & Hw & Hst & Esk & HW2). rewrite Esk in H.
   rewrite (starts_with_st text) in H by apply HW2. change (b "NDATA") with kw_ndata in H.
   destruct (prefix_b kw_ndata l2) eqn:En.
   2:{ inversion H; subst. split; [reflexivity|]. left. exists x, None, w, l2. cbn [r_opt app]. rewrite blen_nil, !N.add_0_r.
       split; [reflexivity|]. split; [exact Hwx|]. split; [reflexivity|]. split; [exact Hw|]. split; [reflexivity|]. split; [exact HW2|discriminate]. }
   destruct (prefix_b_split _ _ En) as (l3 & ->).
-  (* white space before NDATA: P7 *)
+  (* white space before NDATA: (D23) demanded by the model (starts_with_space); P7 is not needed *)
+  rewrite (starts_with_space_st text) in H by exact (WV_W _ _ _ HW1).
   assert (Hwne : w <> []).
-  { intros ->. cbn [app] in *. rewrite blen_nil, N.add_0_r in *.
-    assert (Hend : exists pre qx, r_extid x = pre ++ [qx] /\ (qx = 39 \/ qx = 34)).
-    { destruct x as [ws q sv|ws q pv ws' q' sv]; cbn [r_extid wf_extid] in *; unfold r_lit, wf_lit, is_quote in *.
-      - exists (kw_system ++ ws ++ [q] ++ utf8s sv), q. rewrite <- !app_assoc. split; [reflexivity|].
-        repeat (apply andb_true_iff in Hwx; destruct Hwx as [Hwx ?]). lia.
-      - exists (kw_public ++ ws ++ [q] ++ utf8s pv ++ [q] ++ ws' ++ [q'] ++ utf8s sv), q'. rewrite <- !app_assoc. split; [reflexivity|].
-        repeat (apply andb_true_iff in Hwx; destruct Hwx as [Hwx ?]). lia. }
-    destruct Hend as (pre & qx & Epre & Hqx). rewrite Epre, <- app_assoc in HW0. pose proof (W_app text _ _ _ HW0) as HWq.
-    cbn [app] in HWq. pose proof (fp_ndata _ HF) as Hnd. unfold ndata_sp in Hnd. apply andb_true_iff in Hnd. destruct Hnd as [N1 N2].
-    apply negb_true_iff in N1, N2.
-    destruct Hqx as [-> | ->].
-    - pose proof (W_noprefix text _ _ _ HWq N1 ltac:(discriminate)) as Hp. change (39 :: b "NDATA") with ([39] ++ kw_ndata) in Hp.
-      change (39 :: kw_ndata ++ l3) with (([39] ++ kw_ndata) ++ l3) in Hp. rewrite prefix_b_app_same in Hp. discriminate.
-    - pose proof (W_noprefix text _ _ _ HWq N2 ltac:(discriminate)) as Hp. change (34 :: b "NDATA") with ([34] ++ kw_ndata) in Hp.
-      change (34 :: kw_ndata ++ l3) with (([34] ++ kw_ndata) ++ l3) in Hp. rewrite prefix_b_app_same in Hp. discriminate. }
+  { intros ->. replace (match [] ++ kw_ndata ++ l3 with x :: _ => byte_is_space x | [] => false end) with false in H by reflexivity.
+    cbn [negb] in H. cbv iota in H. noerr. }
+  assert (Hsp : match w ++ kw_ndata ++ l3 with x :: _ => byte_is_space x | [] => false end = true).
+  { destruct w as [|z w']; [congruence|]. cbn [app]. unfold Cst.wf_ws in Hw. cbn [forallb] in Hw. apply andb_true_iff in Hw.
+    destruct Hw as [Hz _]. exact (ws_space _ Hz). }
+  rewrite Hsp in H. change (negb true) with false in H. cbv iota in H.
   rewrite (advance_st text 5 _ kw_ndata) in H by (try reflexivity; apply HW2). cbn [bind] in H.
   pose proof (WV_lit text _ kw_ndata _ HW2 eq_refl) as HW3. change (blen kw_ndata) with 5 in HW3.
   ib H s2 H2. destruct (consume_spaces_inv_p text HF _ _ _ HW3 H2) as (w2 & l4 & -> & Hw2ne & Hw2 & Hst2 & -> & HW4).
